@@ -1404,6 +1404,58 @@ Section ResolveProofs.
     - intros y Hy. destruct (C3 y Hy) as [K|[K _]]; [ | auto].
       apply INV in K. destruct K as [K|K]; [ | auto]. apply G1 in K. tauto.
   Qed.
+
+  (* ---------------------------------------------------------------- the scopes actually used for grading *)
+  Notation eval_scopesM := (eval_scopes V).
+
+  Lemma eval_scopes_spec : forall samples (varlist : envT) bl,
+    (forall s s' x, In s samples -> In s' samples -> amem s x = amem s' x) ->
+    (forall s x, In s samples -> amem varlist x = true -> amem s x = true) ->
+    Forall2 (fun s sc => env_equiv (fst sc) s /\
+                         forall x, alookup (snd sc) x = if smem x bl then None else alookup s x)
+            samples (eval_scopesM varlist bl samples).
+  Proof.
+    induction samples as [|s r IH]; intros varlist bl SAME SUB; simpl; constructor.
+    - assert (E1 : env_equiv (s ++ varlist) s).
+      { intro x. rewrite alookup_app. destruct (alookup s x) as [v|] eqn:L; [reflexivity | ].
+        destruct (amem varlist x) eqn:A.
+        - pose proof (SUB s x (or_introl eq_refl) A) as K. unfold amem in K. rewrite L in K. discriminate.
+        - unfold amem in A. destruct (alookup varlist x); [discriminate | reflexivity]. }
+      split; [exact E1 | ]. intro x. simpl. unfold remove_keys.
+      rewrite (alookup_filter_key (fun k => negb (smem k bl)) (s ++ varlist) x). rewrite (E1 x).
+      destruct (smem x bl); reflexivity.
+    - apply IH.
+      + intros a b x Ha Hb. apply SAME; right; assumption.
+      + intros s' x Hs' A. rewrite <- (SAME s s' x (or_introl eq_refl) (or_intror Hs')).
+        unfold amem, remove_keys in A. rewrite (alookup_filter_key (fun k => negb (smem k bl)) (s ++ varlist) x) in A.
+        destruct (negb (smem x bl)); [ | discriminate].
+        rewrite alookup_app in A. unfold amem. destruct (alookup s x) as [v|] eqn:L; [reflexivity | ].
+        assert (A' : amem varlist x = true) by (unfold amem; exact A).
+        pose proof (SUB s x (or_introl eq_refl) A') as K. unfold amem in K. rewrite L in K. discriminate.
+  Qed.
+
+  (* every sample generated by one call has the same key set, so the accumulated scope of sample i IS sample i, and
+     the student's scope is sample i without the blacklisted names *)
+  Theorem scopes_are_the_samples : forall symbols (sf : sfT) constants draws l bl,
+    gen_symbols_samplesM symbols sf constants draws = RsOk l ->
+    Forall2 (fun s sc => env_equiv (fst sc) s /\
+                         forall x, alookup (snd sc) x = if smem x bl then None else alookup s x)
+            l (eval_scopesM [] bl l).
+  Proof.
+    intros symbols sf constants draws l bl H. apply gen_samples_from_ok in H.
+    assert (KEYS : forall e, In e l -> forall y, amem e y = true <-> (In y symbols \/ (amem constants y = true /\ ~ In y symbols))).
+    { intros e He. clear bl. induction H as [|d e' ds l' G _ IH]; [contradiction | ].
+      destruct He as [He|He]; [ | auto]. subst e'.
+      destruct (gen_sample_complete _ _ _ _ _ G) as [C1 [C2 C3]]. intro y. split; [apply C3 | ].
+      intros [K|[K1 K2]]; [auto | ]. apply amem_alookup in K1. destruct K1 as [v K1].
+      apply amem_alookup. exists v. auto. }
+    apply eval_scopes_spec.
+    - intros s s' x Hs Hs'. pose proof (KEYS s Hs x) as K1. pose proof (KEYS s' Hs' x) as K2.
+      destruct (amem s x); destruct (amem s' x); auto.
+      + symmetry. apply K2. apply K1. reflexivity.
+      + apply K1. apply K2. reflexivity.
+    - intros s x _ A. discriminate.
+  Qed.
 End ResolveProofs.
 
 (* ------------------------------------------------------------------ the concrete evaluator used by the correspondence
